@@ -8,4 +8,17 @@ NOT_APPLICABLE = {
             "property is a function of the operation history alone (DESIGN.md section 4)"),
 }
 
-CHECKS = {}
+CHECKS = {
+    "C13": {
+        "level": "exploration",
+        "technique": "deterministic simulation: write monitor on the simulated disk over seeded image states and injected read faults",
+        "text": ("Every documented read-only invocation (e2fsck -n/-fn/-b, debugfs and debugfs -c command batteries, dumpe2fs "
+                 "variants, tune2fs -l, resize2fs -P, e2image in four modes, e2freefrag, mke2fs -n, e2undo -n) is run against "
+                 "seeded image states produced inside the simulation (clean, unrecovered journal, orphan list, MMP in use, "
+                 "power-loss crash of a writer with lost/torn in-flight writes, structure-addressed media faults), optionally "
+                 "with EIO/short/bad-sector/truncated-device read faults while it runs.  The oracle is exact: zero mutating "
+                 "device events in the event log and an identical image hash.  Sampling, not proof."),
+        "note": ("Trusted: the link-time shim sees every device write made by /repo's objects (libc calls made from inside "
+                 "system libraries are not redirected; libblkid only reads).  Images <= 32 MiB, 1k-4k blocks."),
+    },
+}
